@@ -99,7 +99,13 @@ def opBag (j : Json) : P Json := do
     | "connect" =>
       let l ← bagOfJson (← jField st "left")
       let r ← bagOfJson (← jField st "right")
-      pure (bagResToJson (connectBags l r))
+      let res := connectBags l r
+      let extra : List (String × Json) :=
+        [("wf", .arr #[.bool l.wfB, .bool r.wfB]),
+         ("wf_result", .bool (match res with | .ok c => c.wfB | .error _ => true))]
+      match bagResToJson res with
+      | .obj kvs => pure (Json.mkObj (kvs.toList ++ extra))
+      | j => pure j
     | "make" =>
       let b ← bagOfJson (← jField st "bag")
       let raw : RawBag :=
